@@ -1,14 +1,19 @@
-(* ===== ShowC.v ===== *)
+(* ===== ShowC.v : cases for the constraint compiler ===== *)
 From Coq Require Import List NArith ZArith QArith Qcanon Bool Arith.
 Import ListNotations.
-Require Import Tok Cons.
+Require Import Tok Classify Cons.
 Open Scope N_scope.
 Definition qq (n : Z) (d : positive) : Qc := Q2Qc (Qmake n d).
-Fixpoint qseqb (a b : list Qc) := match a, b with [], [] => true | x :: a', y :: b' => Qc_eq_bool x y && qseqb a' b' | _, _ => false end.
-Fixpoint rowseqb (a b : list (list Qc * Qc)) := match a, b with [], [] => true
-  | (r1, c1) :: a', (r2, c2) :: b' => qseqb r1 r2 && Qc_eq_bool c1 c2 && rowseqb a' b' | _, _ => false end.
-Definition agree (x y : res (list (list Qc * Qc))) := match x, y with inl a, inl b => rowseqb a b | inr a, inr b => Nat.eqb a b | _, _ => false end.
-Definition ccase := (str * list str * res (list (list Qc * Qc)))%type.
-Fixpoint chk (cl : N -> cls) (cs : list ccase) (i : nat) : nat * list nat :=
-  match cs with [] => (O, []) | (s, vars, exp) :: r => let '(m, fl) := chk cl r (S i) in
-    if agree (compile cl vars s) exp then (m, fl) else (S m, i :: fl) end.
+Fixpoint qs_eqb (a b : list Qc) : bool := match a, b with [], [] => true | x :: r1, y :: r2 => Qc_eq_bool x y && qs_eqb r1 r2 | _, _ => false end.
+Fixpoint rows_eqb (a b : list (list Qc * Qc)) : bool :=
+  match a, b with [], [] => true | (r1, c1) :: a', (r2, c2) :: b' => qs_eqb r1 r2 && Qc_eq_bool c1 c2 && rows_eqb a' b' | _, _ => false end.
+(* expectation: the rows, or an error class *)
+Record ccase := { c_vars : list str; c_src : str; c_expect : list (list Qc * Qc) + nat }.
+Definition ccheck (extra : list (N * (bool * bool * bool))) (c : ccase) : bool :=
+  match compile (classify_with extra) (c_vars c) (c_src c), c_expect c with
+  | inl rows, inl exp => rows_eqb rows exp
+  | inr e, inr k => Nat.eqb e k
+  | _, _ => false
+  end.
+Fixpoint chk_cons (extra : list (N * (bool * bool * bool))) (cs : list ccase) (i : nat) : nat * list nat :=
+  match cs with [] => (O, []) | c :: r => let '(m, fl) := chk_cons extra r (S i) in if ccheck extra c then (m, fl) else (S m, i :: fl) end.
